@@ -16,6 +16,8 @@ A *case* (JSON-able dict) describes one connection:
     rules     [{'on': 'ping', 'delay': d, 'do': kind, 'first': i, 'count': n, 'before': b}, ...]
               reactive peer behaviour: for auto-pings number first .. first+count-1 seen on the wire,
               perform ``kind`` ``d`` seconds after the ping was written.
+    proxy     None | True                  client only: the factory is configured with an explicit HTTP proxy; the
+              harness plays the proxy first (actions px / px_a / px_b / px_deny answer the CONNECT), then the server
     onopen    None | 'close'               the application calls sendClose() from inside onOpen
     lost_delay  None | seconds             how long a loseConnection()-style close request stays
               undelivered (unflushed write buffer); abortConnection() is always delivered at once
@@ -172,6 +174,10 @@ class Sim:
         self.resp_open = []         # [kind, r, D] reactions in time whose deadline has not passed yet (not yet credited)
         self.phase = "connecting"   # connecting | open | closing | closed
         self.hs_sent = 0            # 0 nothing, 1 first part, 2 complete
+        self.proxy = bool(case.get("proxy")) and self.role == "client"
+        self.px_sent = 0            # answer to CONNECT: 0 nothing, 1 first part, 2 complete
+        self.px_head_done = not self.proxy
+        self.close_cause = None     # what made US send the initiating close frame: 'api' | 'onopen' | 'fail:<action>' 
         self.our_close_at = None
         self.peer_close_at = None
         self.pending_ping = None    # (t, payload) of the unanswered auto-ping on the wire
@@ -240,9 +246,10 @@ class Sim:
             opts.pop("serverConnectionDropTimeout", None)    # client-only option
             f = self.ws.server_factory(options=opts)
         else:
-            f = self.ws.client_factory(options=opts)
+            f = self.ws.client_factory(options=opts, **({"proxy": {"host": "10.9.8.7", "port": 3128}} if self.proxy else {}))
         if case.get("onopen") == "close":
             f.vf_on_open = lambda proto: proto.sendClose(1000, "bye from onOpen")
+            self.close_cause = "onopen"
         self.t_c = W.now()
         self.ep = ep = self.ws.attach(f, self.role)
         self.proto = ep.proto
@@ -306,6 +313,25 @@ class Sim:
         self.evidence()
         return self
 
+    def credit(self, k):
+        """A peer that met deadline ``k`` with >= 1 s to spare was not dropped by that timer (deciding monitor)."""
+        self.R.count("responsive_not_dropped_%s" % k)
+        self.fired.add("responsive-" + k)
+        if k == "close" and (self.close_cause or "").startswith("fail:"):
+            self.R.count("responsive_not_dropped_failclose")
+        if k == "open" and self.proxy:
+            self.R.count("responsive_not_dropped_open_proxy")
+
+    def count_deadline(self, k):
+        """A deadline of kind ``k`` was judged on a silent peer (deciding monitor)."""
+        R = self.R
+        R.count("deadline_evaluated_%s_%s" % (k, self.role))
+        if k == "close" and (self.close_cause or "").startswith("fail:"):
+            R.count("deadline_evaluated_failclose_%s" % self.role)
+            R.seen("failclose_kinds", "%s/%s" % (self.role, self.close_cause))
+        if k == "open" and self.proxy:
+            R.count("deadline_evaluated_open_proxy_%s" % ("pending" if self.px_sent != 2 else "answered"))
+
     def push(self, t, kind, before=False):
         self.seq += 1
         heapq.heappush(self.agenda, (t, self.seq, kind, before))
@@ -334,6 +360,7 @@ class Sim:
             return
         if kind == "api_close":
             if not self.lost and self.phase == "open" and self.dropped_at is None:
+                self.close_cause = self.close_cause or "api"
                 self.proto.sendClose(1000, "bye")
                 if W.fw == "aio":        # Twisted: everything ran synchronously; settle() would also run the timers due now
                     W.settle()
@@ -354,6 +381,22 @@ class Sim:
             return
         if not self.can_feed():
             return
+        if kind in ("px", "px_a", "px_b", "px_deny"):
+            if not self.proxy or self.px_sent == 2:
+                return
+            data = (b"HTTP/1.1 403 Forbidden\r\n\r\n" if kind == "px_deny" else
+                    b"HTTP/1.1 200 Connection established\r\nProxy-Agent: vf\r\n\r\n")
+            half = len(data) // 2
+            if kind == "px_a":
+                if not self.px_sent:
+                    ep.feed(data[:half])
+                    self.px_sent = 1
+                return
+            ep.feed(data[half:] if self.px_sent == 1 else data)
+            self.px_sent = 2
+            return
+        if self.proxy and self.px_sent != 2:
+            return          # the server behind the proxy cannot be reached yet
         if kind in ("hs", "hs_a", "hs_b"):
             data = self.handshake_bytes()
             if not data or self.hs_sent == 2:
@@ -410,8 +453,22 @@ class Sim:
         if kind == "ping":
             ep.feed(self.frame(ref.OP_PING, b"peer-ping"))
             return
-        if kind == "bad":
-            ep.feed(self.frame(3, b""))      # reserved opcode: protocol violation -> we start a closing handshake
+        if kind in ("bad", "bad_rsv", "bad_utf8", "big"):
+            # the peer violates the protocol: with failByDrop=False WE start a closing handshake (1002 / 1007 / 1009),
+            # with failByDrop=True the transport is dropped at once
+            if self.our_close_at is None and self.phase == "open":
+                self.close_cause = self.close_cause or ("fail:" + kind)
+            mask = MASK if self.role == "server" else None
+            if kind == "bad":
+                data = self.frame(3, b"")                                          # reserved opcode
+            elif kind == "bad_rsv":
+                data = ref.encode_frame(ref.OP_TEXT, b"x", rsv=4, mask=mask)       # RSV1 without an extension
+            elif kind == "bad_utf8":
+                data = ref.encode_frame(ref.OP_TEXT, b"\xff\xfe\xfd", mask=mask)   # invalid UTF-8 in a text message
+            else:
+                data = ref.encode_frame(ref.OP_BIN, b"B" * 300, mask=mask)      # > maxMessagePayloadSize (when configured)
+            self.msg_open = False
+            ep.feed(data)
             return
         raise ValueError("unknown action %r" % (kind,))
 
@@ -537,7 +594,15 @@ class Sim:
         data = ep.take_output()
         if data:
             self.wire += data
-            if not self.head_done:
+            if not self.px_head_done:
+                k = self.wire.find(b"\r\n\r\n")
+                if k >= 0:
+                    self.connect_head = bytes(self.wire[:k + 4])
+                    del self.wire[:k + 4]
+                    self.px_head_done = True
+                    if not self.connect_head.startswith(b"CONNECT "):
+                        self.viol("proxy/no-connect-request", "client with a proxy did not start with CONNECT: %r" % self.connect_head[:60])
+            if self.px_head_done and not self.head_done:
                 k = self.wire.find(b"\r\n\r\n")
                 if k >= 0:
                     self.head = bytes(self.wire[:k + 4])
@@ -607,8 +672,7 @@ class Sim:
                 keep = []
                 for it in self.resp_open:
                     if now > it[2] + EPS:        # the deadline the peer met has passed and we are still connected
-                        R.count("responsive_not_dropped_%s" % it[0])
-                        self.fired.add("responsive-" + it[0])
+                        self.credit(it[0])
                     else:
                         keep.append(it)
                 self.resp_open = keep
@@ -621,7 +685,7 @@ class Sim:
                 if not dl.grey and not dl.overdue_reported and now > dl.D + EPS:
                     dl.overdue_reported = True
                     self.fired.add("deadline-" + k)
-                    R.count("deadline_evaluated_%s_%s" % (k, self.role))
+                    self.count_deadline(k)
                     if k == "drop" and dl.origin == "peer-initiated":
                         key = "no-drop-timer-after-replying-to-server-close"
                     else:
@@ -701,7 +765,7 @@ class Sim:
         R.count("timer_drops_evaluated")
         if rk in cands:
             self.fired.add("deadline-" + rk)
-            R.count("deadline_evaluated_%s_%s" % (rk, self.role))
+            self.count_deadline(rk)
             R.seen("drop_lead", "%s/%.2f" % (rk, live[rk].D - t_d))
             if was_clean is not False or code != 1006:
                 self.viol("wrong-report/%s" % rk, "silent peer dropped by the %s timer on time but reported as "
@@ -710,7 +774,7 @@ class Sim:
         if rk is not None and rk in live:
             dl = live[rk]
             self.fired.add("deadline-" + rk)
-            R.count("deadline_evaluated_%s_%s" % (rk, self.role))
+            self.count_deadline(rk)
             if dl.grey and t_d > dl.D + EPS:
                 self.viol("spurious-timer-drop/%s/%s" % (rk, self.phase_at_drop + ("-no-ping-on-wire" if rk == "ping" and self.pending_ping_at_drop is None else "")),
                           "dropped at %s and reported %r, but the only %s deadline (D=%s) was over" % (self.rel(t_d), reason, rk, self.rel(dl.D)))
@@ -798,8 +862,7 @@ class Sim:
             # the connection ended before the deadline the peer had met came up: credited iff no timer of that kind is blamed
             for k, r, D in self.resp_open:
                 if k != self.timer_drop_kind:
-                    R.count("responsive_not_dropped_%s" % k)
-                    self.fired.add("responsive-" + k)
+                    self.credit(k)
             self.resp_open = []
         R.seen("phases_at_drop", "%s/%s" % (getattr(self, "phase_at_drop", None), self.drop_cause))
         for a, b in self.proto.__dict__.get("vf_state_log", ()):
